@@ -26,12 +26,33 @@ def suite_hist(ctx, focus):
         if i < len(corpus):
             ops, meta = corpus[i]
         else:
-            ops, meta = hist.gen_history(rng, 'residue' if focus == 'C06' else rng.choice(['residue', 'unlock', 'spr', 'timing']), rng.randrange(3, ctx.n(10, 40)), hcfg)
+            ops, meta = hist.gen_history(rng, 'residue' if focus == 'C06' else rng.choice(['residue', 'spr', 'spr', 'timing']) if focus == 'C01' else rng.choice(['residue', 'unlock', 'spr', 'timing']), rng.randrange(3, ctx.n(10, 40)), hcfg)
         out, tr, client, conn = hist.run_history(hcfg, ops)
         line = hcfg.line(ops)
         lines.append(line)
         impl.append(out)
         s.distinct.add(line)
+        if focus == 'C01':
+            # outside every block the frame a call transmits is the ISO encoding of its arguments, whatever the history left behind (C01Hist.frame_after_history);
+            # read off the implementation for the entry kinds whose encoding hist.entry_frame gives exactly
+            stack, std = [], hcfg.std
+            for st in tr.steps:
+                op = st['op']
+                if op[0] in ('espr', 'eovr'):
+                    stack.append(op[0])
+                elif op[0] in ('xspr', 'xovr') and stack:
+                    stack.pop()
+                elif op[0] == 'std':
+                    std = op[1]
+                elif op[0] == 'call' and not stack and op[1][0] in ('cs', 'er', 'rs', 'sk', 'tp', 'at', 'cd', 'td', 'te', 'cl'):
+                    sends = [o[1] for o in st['log'] if o[0] == 'send']
+                    want = hist.entry_frame(op[1], std)
+                    s.evaluations += 1
+                    s.count('frame outside blocks: ' + op[1][0])
+                    if sends and want is not None and sends != [want]:
+                        s.fail({'site': 'history step', 'input': line, 'op': hist.op_str(op), 'observed': [x.hex() for x in sends],
+                                'required': 'one frame, %s (no block is open at this point of the history)' % want.hex()})
+            continue
         if focus == 'C06':
             # every negative response code ends the request with that code, whatever the history left behind (stray frames in the receive queue, failed calls,
             # blocks entered and left); read off the implementation for the calls whose scripted reply is a negative response arriving in time
